@@ -1,4 +1,5 @@
 import LinOp.C18.Model
+import LinOp.C18.ProofsCIQ
 import LinOp.Core.Bridge
 import Mathlib.Algebra.BigOperators.Ring.Finset
 import Mathlib.Data.Matrix.Mul
@@ -6,6 +7,8 @@ import Mathlib.Data.Matrix.Basic
 import Mathlib.Tactic.FinCases
 import Mathlib.Tactic.NormNum
 import Mathlib.Tactic.Ring
+import Mathlib.Logic.Equiv.Fin.Basic
+import Mathlib.Algebra.BigOperators.Fin
 /-!
 C18 — Gaussian sampling uses a true square root of the covariance.  Property theorems only.
 
@@ -191,6 +194,155 @@ theorem interp_cov {nBase r m : Nat} (W : Matrix (Fin r) (Fin nBase) α) (L : Ma
     (W * L) * (W * L)ᵀ = W * K * Wᵀ := by
   rw [Matrix.transpose_mul, ← hL]
   simp only [Matrix.mul_assoc]
+
+
+/-! ### Contour-integral sampler (`settings.ciq_samples`).  `contour_integral_quad` returns, for every quadrature
+point `q`, the solves `K (s_q I − K)⁻¹ b` (minres with `value = -1`, shift `s_q`, then `linear_op._matmul`) and the
+weight `w_q`; the sampler returns `Σ_q w_q · solves_q` with `b` the noise. -/
+
+/-- **CIQ sampler is a fixed linear map of the noise**: with `R_q` the matrix applied by quadrature point `q`
+(`R_q = K (s_q I − K)⁻¹`), the draws are `((Σ_q w_q R_q) Z)ᵀ`, any number of points, sizes and samples. -/
+theorem ciq_linear {Q n k : Nat} (w : Fin Q → α) (Rq : Fin Q → Matrix (Fin n) (Fin n) α)
+    (Z : Matrix (Fin n) (Fin k) α) :
+    ciq w (fun q s i => ∑ j, Rq q i j * Z j s) = ((((∑ q, w q • Rq q) * Z : Matrix _ _ α))ᵀ : Matrix _ _ α) := by
+  funext s i
+  simp only [ciq, sumFin_eq_sum, Matrix.transpose_apply, Matrix.mul_apply, Matrix.sum_apply, Matrix.smul_apply,
+    smul_eq_mul, Finset.sum_mul]
+  rw [Finset.sum_comm]
+  exact Finset.sum_congr rfl fun j _ => Finset.sum_congr rfl fun q _ => by ring
+
+/-- **CIQ covariance reduces to the scalar quadrature rule**: let `K = U diag(λ) Uᵀ` with an orthonormal eigenbasis,
+`M_q` any right inverse of `s_q I − K` (what the shifted solves apply), no shift on the spectrum.  Then the quadrature
+operator `R = Σ_q w_q K M_q` equals `U diag(f(λ)) Uᵀ` with `f(λ) = Σ_q w_q λ/(s_q − λ)`, and if the scalar rule is
+exact on the spectrum (`f(λ_i)² = λ_i`) the draws `R z` have covariance `R Rᵀ = K`. -/
+theorem ciq_cov {β : Type} [Field β] {Q n : Nat} {U : Matrix (Fin n) (Fin n) β} (hU : Uᵀ * U = 1) (hU' : U * Uᵀ = 1)
+    (lam : Fin n → β) (s w : Fin Q → β) (hs : ∀ q i, s q - lam i ≠ 0)
+    (M : Fin Q → Matrix (Fin n) (Fin n) β)
+    (hM : ∀ q, (s q • (1 : Matrix (Fin n) (Fin n) β) - conjU U lam) * M q = 1)
+    (hf : ∀ i, (∑ q, w q * (lam i / (s q - lam i))) * (∑ q, w q * (lam i / (s q - lam i))) = lam i) :
+    (∑ q, w q • (conjU U lam * M q)) * (∑ q, w q • (conjU U lam * M q))ᵀ = conjU U lam := by
+  rw [ciq_operator_spectral hU hU' lam s w hs M hM, conjU_transpose, conjU_mul hU]
+  congr 1
+  funext i
+  exact hf i
+
+/-- The error of the CIQ covariance is the error of the scalar rule on the spectrum, whatever it is:
+`R Rᵀ = U diag(f(λ)²) Uᵀ`. -/
+theorem ciq_cov_general {β : Type} [Field β] {Q n : Nat} {U : Matrix (Fin n) (Fin n) β} (hU : Uᵀ * U = 1)
+    (hU' : U * Uᵀ = 1) (lam : Fin n → β) (s w : Fin Q → β) (hs : ∀ q i, s q - lam i ≠ 0)
+    (M : Fin Q → Matrix (Fin n) (Fin n) β)
+    (hM : ∀ q, (s q • (1 : Matrix (Fin n) (Fin n) β) - conjU U lam) * M q = 1) :
+    (∑ q, w q • (conjU U lam * M q)) * (∑ q, w q • (conjU U lam * M q))ᵀ
+      = conjU U (fun i => (∑ q, w q * (lam i / (s q - lam i))) * (∑ q, w q * (lam i / (s q - lam i)))) := by
+  rw [ciq_operator_spectral hU hU' lam s w hs M hM, conjU_transpose, conjU_mul hU]
+
+/-- Non-vacuity of `ciq_cov`: 1×1, `K = 4`, one quadrature point `s = 0`, `w = 2`: `R = 2·4·(0−4)⁻¹ = −2`, `R² = 4`. -/
+example : (∑ q : Fin 1, (fun _ => (2 : ℚ)) q • (conjU (1 : Matrix (Fin 1) (Fin 1) ℚ) (fun _ => 4) * (fun _ => conjU 1 (fun _ => (0 - 4)⁻¹)) q))
+    * (∑ q : Fin 1, (fun _ => (2 : ℚ)) q • (conjU (1 : Matrix (Fin 1) (Fin 1) ℚ) (fun _ => 4) * (fun _ => conjU 1 (fun _ => (0 - 4)⁻¹)) q))ᵀ
+    = conjU 1 (fun _ => 4) := by
+  apply ciq_cov (U := (1 : Matrix (Fin 1) (Fin 1) ℚ)) (by simp) (by simp) (fun _ => 4) (fun _ => 0) (fun _ => 2)
+  · intro q i; norm_num
+  · intro q
+    ext i j
+    have hi : i = 0 := Subsingleton.elim _ _
+    have hj : j = 0 := Subsingleton.elim _ _
+    subst hi hj
+    simp [conjU_apply, Matrix.mul_apply]
+  · intro i; simp; norm_num
+
+/-! ### Samplers reached through a specialised `root_decomposition` (the base-class sampler `generic` then draws
+with that root). -/
+
+/-- **ConstantMul** (`c·K`, `c ≥ 0`): the root is the base root times `√c`; it is a root of `c·A`. -/
+theorem constMul_cov {n m : Nat} (sc c : α) (h : sc * sc = c) (R : Matrix (Fin n) (Fin m) α)
+    (A : Matrix (Fin n) (Fin n) α) (hR : R * Rᵀ = A) :
+    (Matrix.of (constMulRoot sc R) * (Matrix.of (constMulRoot sc R))ᵀ : Matrix _ _ α) = c • A := by
+  ext i j
+  simp only [← hR, ← h, Matrix.mul_apply, Matrix.transpose_apply, Matrix.of_apply, constMulRoot, Matrix.smul_apply,
+    smul_eq_mul, Finset.mul_sum]
+  exact Finset.sum_congr rfl fun l _ => by ring
+
+/-- ConstantMul draws are the fixed linear map `√c · R` of the noise. -/
+theorem constMul_linear {n m k : Nat} (sc : α) (R : Mat α n m) (Z : Mat α m k) :
+    generic (constMulRoot sc R) Z
+      = ((Matrix.of (constMulRoot sc R) * Matrix.of Z : Matrix _ _ α)ᵀ : Matrix _ _ α) :=
+  generic_linear _ _
+
+/-- **Kronecker** (`KroneckerProductLinearOperator.root_decomposition` above max_cholesky_size): the root is the
+Kronecker product of the factor roots in the dense layout `(i₁·n₂ + i₂, j₁·m₂ + j₂)`; it is a root of the Kronecker
+product of the factor covariances, all factor sizes and root widths. -/
+theorem kron_cov {n1 n2 m1 m2 : Nat} (h2 : 0 < n2) (hm2 : 0 < m2)
+    (R1 : Matrix (Fin n1) (Fin m1) α) (R2 : Matrix (Fin n2) (Fin m2) α)
+    (A1 : Matrix (Fin n1) (Fin n1) α) (A2 : Matrix (Fin n2) (Fin n2) α)
+    (e1 : R1 * R1ᵀ = A1) (e2 : R2 * R2ᵀ = A2) :
+    (Matrix.of (kronFlat R1 R2 h2 hm2) * (Matrix.of (kronFlat R1 R2 h2 hm2))ᵀ : Matrix _ _ α)
+      = Matrix.of (kronFlat A1 A2 h2 h2) := by
+  ext i j
+  have hd : ∀ (a : Fin m1) (b : Fin m2) h, (⟨(finProdFinEquiv (a, b) : Fin (m1 * m2)).1 / m2, h⟩ : Fin m1) = a := by
+    intro a b h; apply Fin.ext
+    simp [finProdFinEquiv, Nat.add_mul_div_left _ _ hm2, Nat.div_eq_of_lt b.2]
+  have hm : ∀ (a : Fin m1) (b : Fin m2) h, (⟨(finProdFinEquiv (a, b) : Fin (m1 * m2)).1 % m2, h⟩ : Fin m2) = b := by
+    intro a b h; apply Fin.ext
+    simp [finProdFinEquiv, Nat.mod_eq_of_lt b.2]
+  simp only [Matrix.mul_apply, Matrix.transpose_apply, Matrix.of_apply, kronFlat]
+  rw [← finProdFinEquiv.sum_comp, Fintype.sum_prod_type]
+  simp only [hd, hm, ← e1, ← e2, Matrix.mul_apply, Matrix.transpose_apply, Finset.sum_mul_sum]
+  exact Finset.sum_congr rfl fun a _ => Finset.sum_congr rfl fun b _ => by ring
+
+
+/-- Kronecker draws are the fixed linear map `R₁ ⊗ R₂` of the noise. -/
+theorem kron_linear {n1 n2 m1 m2 k : Nat} (h2 : 0 < n2) (hm2 : 0 < m2) (R1 : Mat α n1 m1) (R2 : Mat α n2 m2)
+    (Z : Mat α (m1 * m2) k) :
+    generic (kronFlat R1 R2 h2 hm2) Z
+      = ((Matrix.of (kronFlat R1 R2 h2 hm2) * Matrix.of Z : Matrix _ _ α)ᵀ : Matrix _ _ α) :=
+  generic_linear _ _
+
+/-! ### Shapes: `zero_mean_mvn_samples(k)` returns `(k, *batch, n)` for every batch shape. -/
+
+theorem bcastRev_self (l : List Nat) : bcastRev l l = some l := by
+  induction l with
+  | nil => rfl
+  | cons a as ih => simp [bcastRev, ih]
+
+/-- A root with the operator's own batch shape broadcasts to it. -/
+theorem bcast_self (l : List Nat) : bcast l l = some l := by
+  simp [bcast, bcastRev_self]
+
+/-- An unbatched root broadcasts to any batch shape. -/
+theorem bcast_nil_left (l : List Nat) : bcast [] l = some l := by
+  simp [bcast, bcastRev]
+
+theorem lastFirst_append (b : List Nat) (n k : Nat) : lastFirst (b ++ [n, k]) = k :: (b ++ [n]) := by
+  simp [lastFirst]
+
+/-- **Shape of the base-class sampler, all batch shapes, sizes and sample counts**: for a root `(*rb, n, m)` whose
+batch shape broadcasts to the operator's batch shape, `root.matmul(randn(*batch, m, k)).permute(-1, 0, …)` has shape
+`(k, *batch, n)`. -/
+theorem genericShape_total (rb batch : List Nat) (n m k : Nat) (h : bcast rb batch = some batch) :
+    genericShape rb batch n m m k = some (k :: batch ++ [n]) := by
+  simp [genericShape, h, lastFirst_append]
+
+/-- Instances: the root carries the operator's batch shape, or none at all. -/
+theorem genericShape_self (batch : List Nat) (n m k : Nat) :
+    genericShape batch batch n m m k = some (k :: batch ++ [n]) ∧
+    genericShape [] batch n m m k = some (k :: batch ++ [n]) :=
+  ⟨genericShape_total _ _ _ _ _ (bcast_self _), genericShape_total _ _ _ _ _ (bcast_nil_left _)⟩
+
+/-- The sampler's shape function is total in the sense of torch: it fails exactly when the noise's inner size does
+not match the root or the batch shapes do not broadcast. -/
+theorem genericShape_none_iff (rb batch : List Nat) (n m m' k : Nat) :
+    genericShape rb batch n m m' k = none ↔ (m ≠ m' ∨ bcast rb batch = none) := by
+  unfold genericShape
+  by_cases h : m = m'
+  · simp [h]
+  · simp [h]
+
+/-- Block samplers: the draws of the base `(k, *batch, nb, n)` become `(k, *batch, N)` with `N` the size of the
+block operator (`nb·n` for BlockDiag / BlockInterleaved, `n` for SumBatch); the sample and batch dimensions are kept. -/
+theorem blockShape_eq (kind k : Nat) (batch : List Nat) (nb n : Nat) :
+    blockShape kind k batch nb n = k :: batch ++ [if kind = 2 then n else nb * n] ∧
+    (blockShape kind k batch nb n).length = batch.length + 2 := by
+  simp [blockShape]
 
 /-- Non-vacuity: a 2-block BlockDiag with 1×1 roots 2 and 3 has covariance diag(4, 9). -/
 example : blockDiagL (α := ℤ) (nb := 2) (n := 1) (m := 1) (fun b => fun _ _ => if b = 0 then 2 else 3)
